@@ -135,10 +135,11 @@ func evalC03(c *Ctx, gc GCase) string {
 	// --- warnings
 	nWarn := strings.Count(b.Res.Stdout, "warning: has the conflic")
 	rp := rulePrecs(b, gc.Spec)
+	tps := termPrecs(b, gc.Spec)
 	confl := g.Conflicts(lr0, rla)
 	unresolved, indet := 0, 0
 	for _, cf := range confl {
-		switch cellStatus(b, g, cf, rp) {
+		switch cellStatus(tps, g, cf, rp) {
 		case "unresolved":
 			unresolved++
 		case "indeterminate":
@@ -201,11 +202,38 @@ func termName(g *ref.CFG, t int) string {
 	return g.Names[t]
 }
 
-// rulePrecs reads the precedence yaccgo attached to each rule (from G) and
-// marks rules where yacc's "last terminal" definition would differ.
+// rulePrecs gives, per rule, the precedence it has by the declarations and
+// whether yacc's definition (last terminal) and yaccgo's (last terminal with a
+// precedence) disagree. With an abstract spec at hand the declarations are
+// read from it (so that a front end that attaches a wrong precedence cannot
+// make a genuine conflict look resolved); otherwise from yaccgo's grammar.
 func rulePrecs(b *Built, sp *spec.Spec) []rulePrec {
 	G := b.A.L.G
 	out := make([]rulePrec, len(G.ProductoinRules))
+	if sp != nil && len(sp.Rules)+1 == len(G.ProductoinRules) {
+		for i := 1; i < len(out); i++ {
+			sr := sp.Rules[i-1]
+			if sr.Prec >= 0 {
+				lv, as := sp.PrecOf(sr.Prec)
+				out[i] = rulePrec{level: lv, assoc: assocCode(as)}
+				continue
+			}
+			lastT, lastP := -1, -1
+			for j, x := range sr.RHS {
+				if x < len(sp.Terms) {
+					lastT = j
+					if lv, _ := sp.PrecOf(x); lv > 0 {
+						lastP = j
+					}
+				}
+			}
+			if lastP >= 0 {
+				lv, as := sp.PrecOf(sr.RHS[lastP])
+				out[i] = rulePrec{level: lv, assoc: assocCode(as), ambiguous: lastP != lastT}
+			}
+		}
+		return out
+	}
 	for i, r := range G.ProductoinRules {
 		if i == 0 {
 			continue
@@ -214,14 +242,6 @@ func rulePrecs(b *Built, sp *spec.Spec) []rulePrec {
 			out[i].level = r.PrecSymbol.Prec
 			out[i].assoc = int(r.PrecSymbol.PrecType)
 		}
-		explicit := false
-		if sp != nil && i-1 < len(sp.Rules) {
-			explicit = sp.Rules[i-1].Prec >= 0
-		}
-		if explicit {
-			continue
-		}
-		// yacc: precedence of the last terminal of the rhs
 		lastT := -1
 		for j, s := range r.RighPart {
 			if !s.IsNonTerminator {
@@ -235,29 +255,49 @@ func rulePrecs(b *Built, sp *spec.Spec) []rulePrec {
 		if yaccLevel != out[i].level {
 			out[i].ambiguous = true
 		}
-		if sp == nil && r.PrecSymbol != nil && lastT >= 0 && r.RighPart[lastT] != r.PrecSymbol {
+		if r.PrecSymbol != nil && lastT >= 0 && r.RighPart[lastT] != r.PrecSymbol {
 			out[i].ambiguous = true
 		}
 	}
 	return out
 }
 
-// termPrec returns the precedence level (0 none) and associativity of a
-// terminal (our index; NT = end marker) as recorded in yaccgo's symbol table.
-func termPrec(b *Built, t int) (int, int) {
-	if t == b.A.G.NT {
-		return 0, 2
+func assocCode(a string) int {
+	switch a {
+	case "left":
+		return 0
+	case "right":
+		return 1
 	}
-	s := b.A.L.G.Symbols[b.A.FromOur[t]]
-	if s.Prec > 0 {
-		return s.Prec, int(s.PrecType)
+	return 2
+}
+
+// termPrecs: precedence level per terminal (our adapted index; last = end
+// marker), from the spec by name when available, else from yaccgo's symbols.
+func termPrecs(b *Built, sp *spec.Spec) []int {
+	g := b.A.G
+	out := make([]int, g.NT+1)
+	byName := map[string]int{}
+	if sp != nil {
+		for i, t := range sp.Terms {
+			byName[t.YName()] = i
+		}
 	}
-	return 0, 2
+	for t := 0; t < g.NT; t++ {
+		if si, ok := byName[g.Names[t]]; ok {
+			out[t], _ = sp.PrecOf(si)
+			continue
+		}
+		if s := b.A.L.G.Symbols[b.A.FromOur[t]]; s.Prec > 0 {
+			out[t] = s.Prec
+		}
+	}
+	return out
 }
 
 // cellStatus: resolved / unresolved / indeterminate (see PropInfo).
-func cellStatus(b *Built, g *ref.CFG, cf ref.Conflict, rp []rulePrec) string {
-	tl, _ := termPrec(b, cf.Term)
+func cellStatus(tps []int, g *ref.CFG, cf ref.Conflict, rp []rulePrec) string {
+	tl := tps[cf.Term]
 	nPrec, nNo := 0, 0
 	if cf.Shift {
 		if tl > 0 {
